@@ -191,7 +191,7 @@ XLATE = {
  'C15': "Translated code (Tie/C15): lazyOpener (cmd/age/age.go), the mechanism behind 'the -o file is neither created nor modified when decryption is refused at the header', is translated from /repo on every run (os.Create, File.Write, File.Close are parameters) and proved to be the model's three-state machine: the file is created by the FIRST Write and by nothing else — handed an os.Create that faults when called, a Write on an opened or failed opener still returns normally, Close has no access to it — a failed creation is remembered, Close on an opener that never wrote closes nothing (lazy_write_unopened, lazy_write_opened, lazy_write_failed, lazy_close). decrypt of cmd/age/age.go translated too (errorf/errorWithHint are exit sites): the whole order of effects of age -d as a chain (cli_decrypt_tie), and — the clause of the property — when age.Decrypt refuses, the process exits with status 1 WITHOUT ANY WRITE to the output: out.Write and io.Copy may fault when called, they are not reached (cli_decrypt_refused). main itself (flag handling, the in-use path check, keygen) stays tied by the correspondence through the real binaries.",
  'C16': "Translated code (Tie/C16): BOTH client state machines — (*Recipient).WrapWithLabels and (*Identity).Unwrap of plugin/client.go: phase 1, the phase-2 read loop with its switch on the stanza type, the labelled break, both defers — are translated from /repo on every run (the process, the stanza reader on its output and the UI are abstract state; openClientConnection, writeStanza, writeStanzaWithBody, Stanza.Marshal, NewStanzaReader, ClientUI.readStanza and ClientUI.handle are parameters: writing appends one stanza to the transcript, reading pops the next message of the plugin's script or reports how it ends, handle is the model's UI.handle) and proved, for EVERY script, UI and ending, to write exactly the model's phase 1 followed by the model's replies, to leave the UI in the model's state and to return the model's result (recipient_client_tie, identity_client_tie) — so the theorems above are about the state machines in the source. ClientUI.handle/readStanza themselves, the framing on the wire and the process stay tied by the correspondence.",
  'C19': "Translated code (Tie/C19): the first part of (*EncryptedSSHIdentity).Unwrap (agessh/encrypted_keys.go: cached-key shortcut, match loop over the stanzas, 'no match' return, call of the passphrase callback) is translated from /repo on every run and proved equal to the model up to that point (encssh_prompt_tie): with a key cached the callback is not touched; with nothing cached it is invoked exactly when the model's scanStanzas finds a stanza of the key's type carrying its tag before a malformed one — handed a callback that FAULTS when called, the translated code still returns normally in every other case (encssh_no_prompt). The rest of the function (key-file parsing, type switch over crypto key types, public-key comparison, assignment of the cache) is outside the translated fragment: correspondence only.",
- 'C17': "Translated code (Tie/C17): plugin.validPluginName — the test every construction of a plugin client goes through — is translated from /repo on every run and proved equal to the model for every byte string (invalid UTF-8 included); the parsers/encoders built on it are tied in Tie/C09; the command line's routing, parseRecipient and parseIdentity of cmd/age/parse.go, translated too: for every argument, which constructor it is handed to (cli_parseRecipient_tie, cli_parseIdentity_tie), and handed a plugin constructor that FAULTS when called parseRecipient still returns normally for every argument that is not of the plugin form (cli_native_no_plugin); the client constructors NewRecipient, NewIdentity, NewIdentityWithoutData translated and proved to be the model's (newRecipient_tie, newIdentity_tie, newIdentityWithoutData_tie): every construction goes through the name check and keeps the string it was given.",
+ 'C17': "Translated code (Tie/C17): plugin.validPluginName — the test every construction of a plugin client goes through — is translated from /repo on every run and proved equal to the model for every byte string (invalid UTF-8 included); the parsers/encoders built on it are tied in Tie/C09; the command line's routing, parseRecipient and parseIdentity of cmd/age/parse.go, translated too: for every argument, which constructor it is handed to (cli_parseRecipient_tie, cli_parseIdentity_tie), and handed a plugin constructor that FAULTS when called parseRecipient still returns normally for every argument that is not of the plugin form (cli_native_no_plugin); the client constructors NewRecipient, NewIdentity, NewIdentityWithoutData translated and proved to be the model's (newRecipient_tie, newIdentity_tie, newIdentityWithoutData_tie): every construction goes through the name check and keeps the string it was given; openClientConnection translated up to the exec.Command call (exec_tie): THE command is age-plugin-NAME --age-plugin=PROTOCOL, and for a name containing '/' no command is built at all (the constructor may fault when called).",
 }
 for _k, _v in XLATE.items():
     CLAIMS[_k]['text'] += " " + _v
